@@ -1,6 +1,10 @@
 package log
 
-import "go.opentelemetry.io/otel/sdk/resource"
+import (
+	"strconv"
+
+	"go.opentelemetry.io/otel/sdk/resource"
+)
 
 func c20EmptyResource() *resource.Resource { return resource.Empty() }
 
@@ -48,26 +52,49 @@ func HarnessC20LogLimits() {
 	for _, k := range []string{envarAttrCntLim, envarAttrValLenLim} {
 		vndUnsetEnv(k)
 	}
-	d := vndStringN(1)
+	// both limits; the environment value is any string of up to 2 bytes ("-1",
+	// "0", "07", "+5", garbage, empty), the option any small integer including
+	// 0 and negative values (which mean "nothing" and "unlimited")
+	which := vndChoice(2)
+	key, def := envarAttrCntLim, defaultAttrCntLim
+	if which == 1 {
+		key, def = envarAttrValLenLim, defaultAttrValLenLim
+	}
+	d := vndString(2)
 	set := vndChoice(2) == 1
 	if set {
-		vndSetEnv(envarAttrCntLim, d)
+		vndSetEnv(key, d)
 	}
 	var opts []LoggerProviderOption
 	useOpt := vndChoice(2) == 1
+	ov := int(vndI32())
+	vndAssume(vndAnd(ov >= -2, ov <= 200))
 	if useOpt {
-		opts = append(opts, WithAttributeCountLimit(3))
+		if which == 0 {
+			opts = append(opts, WithAttributeCountLimit(ov))
+		} else {
+			opts = append(opts, WithAttributeValueLengthLimit(ov))
+		}
 	}
 	c := newProviderConfig(opts)
 	vndReach("resolved")
-	digit := vndAnd(d[0] >= '0', d[0] <= '9')
+	got := c.attrCntLim
+	other, otherDef := c.attrValLenLim, defaultAttrValLenLim
+	if which == 1 {
+		got, other, otherDef = c.attrValLenLim, c.attrCntLim, defaultAttrCntLim
+	}
+	vndAssert(got.Set && other.Set && other.Value == otherDef, "untouched-limit-keeps-its-default")
 	switch {
 	case useOpt:
-		vndAssert(c.attrCntLim.Value == 3, "option-over-environment")
-	case set:
-		vndAssert(vndImplies(digit, c.attrCntLim.Value == int(d[0]-'0')), "limit-from-environment")
-		vndAssert(vndImplies(vndNot(digit), c.attrCntLim.Value == defaultAttrCntLim), "unparsable-limit-gives-default")
+		vndAssert(got.Value == ov, "option-over-environment")
+	case set && d != "":
+		n, err := strconv.Atoi(d)
+		if err == nil {
+			vndAssert(got.Value == n, "limit-from-environment")
+		} else {
+			vndAssert(got.Value == def, "unparsable-limit-gives-default")
+		}
 	default:
-		vndAssert(c.attrCntLim.Value == defaultAttrCntLim, "default-limit")
+		vndAssert(got.Value == def, "default-limit")
 	}
 }
